@@ -300,6 +300,47 @@ def fragment_patterns(rng):
     return out
 
 
+def wide_and_long_cases(rng):
+    """size, not shape: (1) a two-type input cycle whose closing members come after 70 / 150 other input-typed members (comparison
+    inputs in the style of Hasura's `*_bool_exp`); (2) fragment cycles of 12, 40 and 48 fragments through plain object fields.
+    Whatever bounds the searches keep, the answer must stay "needs an indirection" """
+    out = []
+    for wi, n in enumerate((70, 150)):
+        s = Schema()
+        for k in range(n):
+            s.add("Cmp%02d" % k, {"kind": "input", "one_of": False, "fields": [["eq", T("Int")], ["inner", T("Leaf%d" % (k % 3))]]})
+        for k in range(3):
+            s.add("Leaf%d" % k, {"kind": "input", "one_of": False, "fields": [["v", T("String")]]})
+        s.add("UsersBoolExp", {"kind": "input", "one_of": False, "fields": [["c%02d" % k, T("Cmp%02d" % k)] for k in range(n)] + [["posts", T("PostsBoolExp")]]})
+        s.add("PostsBoolExp", {"kind": "input", "one_of": False, "fields": [["c%02d" % k, T("Cmp%02d" % k)] for k in range(n)] + [["author", T("UsersBoolExp")]]})
+        s.add("Query", obj("Query", [("x", T("Int"))]))
+        doc = {"operations": [{"kind": "query", "name": "Q", "vars": [{"name": "where", "type": T("UsersBoolExp"), "default": None}], "sel": [["field", None, "x", None, None]]}], "fragments": []}
+        c = C.make_case("w%d" % wi, s, doc, rng, options={"skip_none": True}, fmt=["sdl", "json"][wi % 2])
+        val = {"where": {"c00": {"eq": 1}, "posts": {"author": {"c01": {"eq": 2, "inner": {"v": "x"}}, "posts": {"c02": {"eq": 3}}}}}}
+        c["vectors"] = [{"id": "a0", "kind": "vars", "target": "Q", "input": val, "expect": {"variables": val}}]
+        c["pattern"] = "two-type input cycle closed after %d sibling input members" % n
+        c["features"] = ["wide-input-cycle"]
+        out.append(c)
+    for li, n in enumerate((12, 40, 48)):      # (beyond ~80 distinct nested types rustc's own recursion limit answers, E0320: not this property's business)
+        s = Schema()
+        s.add("Stage", obj("Stage", [("id", NN(T("ID"))), ("label", T("String")), ("next", T("Stage"))]))
+        s.add("Query", obj("Query", [("start", T("Stage"))]))
+
+        def f(name, sub=None):
+            return ["field", None, name, None, sub]
+        frags = [{"name": "Stage%02d" % k, "on": "Stage", "sel": [f("id"), f("label"), f("next", [["spread", "Stage%02d" % ((k + 1) % n)]])]} for k in range(n)]
+        doc = {"operations": [{"kind": "query", "name": "Q", "vars": [], "sel": [f("start", [["spread", "Stage00"]])]}], "fragments": frags}
+        c = C.make_case("l%d" % li, s, doc, rng, options={}, fmt="sdl")
+        payload = None
+        for k in range(5):
+            payload = {"id": "s%d" % k, "label": None if k % 2 else "L", "next": payload}
+        c["vectors"] = [{"id": "r0", "kind": "resp", "target": "Q", "input": {"start": payload}, "expect": {"ok": True, "reser": json.loads(json.dumps({"start": payload}))}, "label": "conforming"}]
+        c["pattern"] = "cycle of %d fragments through a plain object field" % n
+        c["features"] = ["long-fragment-cycle"]
+        out.append(c)
+    return out
+
+
 def main(run):
     run.rule = RULE
     run.assumptions = ["non-null cycles without a list are uninhabited but legal to declare: they must compile and get no round-trip vector",
@@ -324,6 +365,7 @@ def main(run):
         cases.append(graph_case("r%d" % i, ns, edges, one, rng, fmt=rng.choice(["sdl", "json"]), style=rng.randrange(4), rust=rng.random() < 0.5, skip=rng.random() < 0.5))
     frs = fragment_patterns(rng)
     cases += frs
+    cases += wide_and_long_cases(rng)
     cases += hazards.cases_for(run, "C12")
     fac = Factory("C12-%d" % run.seed)
     # generation with inspect first: pre-screen every graph
